@@ -108,6 +108,14 @@ EXPORT int sprintf_s(char *restrict dest, rsize_t dmax,
     ret = vsnprintf_s(dest, dmax, fmt, va);
 #endif
     va_end(va);
+
+    /* not truncating: a text of dmax or more characters is an error, as in
+       vsprintf_s */
+    if (unlikely(dmax && ret >= (int)dmax)) {
+        handle_error(dest, dmax, "sprintf_s: len exceeds dmax", ESNOSPC);
+        return -ESNOSPC;
+    }
+
     return ret;
 }
 
